@@ -7,6 +7,7 @@ import (
 	"fmt"
 	"os"
 	"path/filepath"
+	"runtime/debug"
 	"sort"
 	"strings"
 	"testing"
@@ -216,7 +217,7 @@ func runProp[C any](t *testing.T, id, rule string, gen func(*rapid.T) C, check f
 func safeCheck[C any](check func(C, *Collector) outcome, c C, col *Collector) (out outcome) {
 	defer func() {
 		if r := recover(); r != nil {
-			out = outcome{V: &sim.Violation{Property: col.Property, Sig: "harness-panic", Msg: fmt.Sprintf("panic: %v", r)}}
+			out = outcome{V: &sim.Violation{Property: col.Property, Sig: "harness-panic", Msg: fmt.Sprintf("panic: %v\n%s", r, debug.Stack())}}
 		}
 	}()
 	return check(c, col)
